@@ -15,6 +15,8 @@ Record c13case := C13 {
   c_vprefix : bytes;                 (* what the store puts before an id to form the value key ("v." or nothing) *)
   g_keys : kdb;                      (* EVERY database key after Flush, iteration order: index entries and
                                         the raw value keys the iterator also walks over *)
+  c_foreign : kdb;                   (* raw keys the harness wrote into the database itself after the Flush:
+                                        entries under "k:" that are no index entries (no NUL separator) *)
   g_queries : list qobs              (* IndexQuery.FetchCollection results after Flush *)
 }.
 
@@ -25,7 +27,7 @@ Definition with_value_keys (vprefix : bytes) (st : vstore val) (d : kdb) : kdb :
 (* field codes: 1 key space  2 a query result  3 stored values *)
 Definition check_case (c : c13case) : list N :=
   let '(st, d0, _) := run_history idxs 0 (c_muts c) in
-  let d := with_value_keys (c_vprefix c) st d0 in
+  let d := fold_left (fun d k => db_set k d) (c_foreign c) (with_value_keys (c_vprefix c) st d0) in
   (if list_eqb beq d (g_keys c) then [] else [1]) ++
   (if forallb (fun o => outcome_eqb (fetch_collection d (to_iq (o_q o))) (o_res o)) (g_queries c) then [] else [2]) ++
   (if store_eqb st (g_stored c) then [] else [3]).
@@ -34,6 +36,9 @@ Definition check_case (c : c13case) : list N :=
    1 a query result is not the sorted / filtered / windowed scan of the stored values
    2 the key space is not { name:key\0id | stored value, key <> nil } plus the value keys *)
 Definition viol_case (c : c13case) : list N :=
+  (* foreign keys under "<index>:" break the precondition of the property (C13 assumptions): such
+     cases are correspondence-only ("index entry is invalid" error path) *)
+  if negb (is_nil (c_foreign c)) then [] else
   (if forallb (fun o => outcome_eqb (spec_on (g_stored c) (o_q o)) (o_res o)) (g_queries c) then [] else [1]) ++
   (if list_eqb beq (with_value_keys (c_vprefix c) (g_stored c) (keys_of_store (g_stored c))) (g_keys c) then [] else [2]).
 
